@@ -40,7 +40,7 @@ pub fn programs(tier: Tier) -> ProgramSet {
         disabled: true,
         default: false,
         default_with: false,
-        aci: tier == Tier::Thorough,
+        aci: true,
         layouts: true,
         styles,
         enum_aci: true,
@@ -49,13 +49,40 @@ pub fn programs(tier: Tier) -> ProgramSet {
     };
     let (specs, ex) = enumerate(&EnumSpec::base(3), "B3", &alphabet(3, &c), 2, &domain);
     let mut out = Vec::new();
+    let mut seen = std::collections::HashSet::new();
     for e in specs {
-        let source = render(&e.spec);
-        out.push(Program { idx: 0, label: e.label, k: e.k, spec: e.spec, aux: json!(null), source });
+        if seen.insert(e.spec.clone()) {
+            let source = render(&e.spec);
+            out.push(Program { idx: 0, label: e.label, k: e.k, spec: e.spec, aux: json!(null), source });
+        }
+    }
+    if tier == Tier::Thorough {
+        // level 3 over a reduced alphabet that contains case twins (xy / XY / Xy)
+        let c3 = AlphaCfg {
+            pool: vec!["xy", "XY", "é"],
+            pool_b: vec!["Xy", "x"],
+            kinds: false,
+            disabled: true,
+            default: false,
+            default_with: false,
+            aci: true,
+            layouts: false,
+            styles: vec!["snake_case", "UPPERCASE"],
+            enum_aci: true,
+            generics: false,
+            resize: false,
+        };
+        let (specs, _) = enumerate(&EnumSpec::base(2), "B2", &alphabet(2, &c3), 3, &domain);
+        for e in specs {
+            if seen.insert(e.spec.clone()) {
+                let source = render(&e.spec);
+                out.push(Program { idx: 0, label: e.label, k: e.k, spec: e.spec, aux: json!(null), source });
+            }
+        }
     }
     let mut exm = std::collections::BTreeMap::new();
     exm.insert("overlapping spellings / braces in a name".to_string(), ex as u64);
-    ProgramSet { programs: finish(out), excluded: exm, bounds: json!({"N": 3, "k_max": 2, "styles": 16}) }
+    ProgramSet { programs: finish(out), excluded: exm, bounds: json!({"N": 3, "k_max": if tier == Tier::Quick { 2 } else { 3 }, "styles": 16, "level3": "N=2 over a reduced alphabet with case twins (thorough)"}) }
 }
 
 pub fn render(spec: &EnumSpec) -> String {
@@ -90,7 +117,8 @@ pub fn check(ctx: &mut Ctx, printed: Vec<(usize, &'static str, Result<Vec<String
         };
         if what == "get_serializations" {
             // exactly the spelling list
-            ctx.expect_eq("get_serializations", &format!("variant {} ({})", i, v.ident), &format!("{:?}", sp), &format!("{:?}", strs));
+            // "exactly the set of spellings": compared as sets
+            ctx.expect_eq("get_serializations", &format!("variant {} ({})", i, v.ident), &format!("{:?}", refsem::as_set(&sp)), &format!("{:?}", refsem::as_set(&strs)));
             if sp.len() > 1 {
                 ctx.outcome("multi-spelling");
             }
